@@ -124,7 +124,9 @@ static int encodeAsRaw(KSI_TLV *tlv) {
 		goto cleanup;
 	}
 
-	if (tlv->buffer == NULL) {
+	/* A buffer the TLV already owns is reused only if any payload fits into it: the buffer of a parsed TLV is as large
+	 * as what was parsed, which the nested elements may have outgrown (and may still point into). */
+	if (tlv->buffer == NULL || tlv->buffer_size < 0xffff + 1) {
 		buf_size = 0xffff + 1;
 		buf = KSI_calloc(buf_size, 1);
 		if (buf == NULL) {
@@ -143,14 +145,15 @@ static int encodeAsRaw(KSI_TLV *tlv) {
 		goto cleanup;
 	}
 
+	KSI_TLVList_free(tlv->nested);
+	tlv->nested = NULL;
+
+	if (tlv->buffer != buf) KSI_free(tlv->buffer);
 	tlv->buffer = buf;
 	tlv->buffer_size = buf_size;
 
 	tlv->datap = buf;
 	tlv->datap_len = payloadLength;
-
-	KSI_TLVList_free(tlv->nested);
-	tlv->nested = NULL;
 
 	buf = NULL;
 
@@ -158,7 +161,8 @@ static int encodeAsRaw(KSI_TLV *tlv) {
 
 cleanup:
 
-	KSI_free(buf);
+	/* On failure the TLV keeps the buffer it owns. */
+	if (tlv == NULL || buf != tlv->buffer) KSI_free(buf);
 
 	return res;
 }
